@@ -367,7 +367,7 @@ func Drive(c *Check, tier string, seed int64, nworkers int, only string) int {
 		}
 		newViol = append(newViol, v)
 	}
-	if unconfirmed > 0 {
+	if unconfirmed > 0 && len(newViol) == 0 {
 		return 2
 	}
 
@@ -497,9 +497,11 @@ func confirmViolation(self string, c *Check, tier string, v Violation) bool {
 		if json.Unmarshal(so.Bytes(), &got) != nil {
 			return false
 		}
+		// the same kind of violation on the same case in every fresh process; the detail text may carry values that
+		// are not stable between processes (addresses turned into offsets by a token that is not a slice of the input)
 		same := false
 		for _, g := range got {
-			if g.Kind == v.Kind && g.Detail == v.Detail {
+			if g.Kind == v.Kind {
 				same = true
 			}
 		}
